@@ -166,8 +166,8 @@ Section QC.
     resolve_with enabled (checkS enabled fuel O [] o r) (o, r).
 
   (* the uncached engine in the same form *)
-  Definition check_nc (fuel depth : nat) (visited : list atom) (o : obj) (r : rid) : res :=
-    fst (checkS false fuel depth visited o r []).
+  Definition check_nc (fuel depth : nat) (visited : list atom) (o : obj) (r : rid) : oset :=
+    fst (fst (checkS false fuel depth visited o r [])).
 
   (* the PATH-INDEPENDENT unfolding of a sub-problem: the same evaluator without VisitedPaths and
      without depth counter, h levels deep.  Its definite outcomes (AT / AFn) do not depend on how
